@@ -451,6 +451,12 @@ func passG(repo string, cfg *vc.SolverConfig, only, corpus, scratch string, thor
 	}
 	directives := directiveNames(repo)
 	sink := vc.NewSink("G")
+	// implicit safety obligations of generated code (nil dereference, index,
+	// comparison of uncomparable interface values, ...): a failure is a run-time
+	// panic inside generated plumbing
+	for name := range roleSpecs {
+		sink.DefaultProps["role:"+name] = []string{"C04", "C13"}
+	}
 	const modPrefix = "go.uber.org/cff/internal/tests"
 
 	if thorough {
